@@ -473,6 +473,12 @@ def _exec_ints(doc, res):
         except BaseException as exc:  # pylint: disable=broad-except
             outcome = type(exc).__name__
         res.stats['fault.out_of_range_value'] += 1
+        if outcome == 'InvalidValue' and bytes(composer.composed_bytes):
+            res.violation((PROPERTY, 'rejected-array-left-output', size, order),
+                          'a value that does not fit the width is rejected with an invalid-value error rather than truncated',
+                          'compose_numeric_array(%r, %d) raised InvalidValue and left %s in the composer' % (
+                              items, size, bytes(composer.composed_bytes).hex()))
+            break
         if outcome != 'InvalidValue':
             res.violation((PROPERTY, 'overflow-not-rejected', size, order, 'array', outcome.split(':')[0]),
                           'a value that does not fit the width is rejected with an invalid-value error rather than truncated',
